@@ -42,7 +42,7 @@ func clauseWordsFor(p *Prog, nodeType string) ([]string, bool, *InterpModel) {
 			if e.KV["raises"] == "T" || e.KV["dirty"] == "T" {
 				skip = true
 			}
-			if e.Op == "flagtest" || (e.Op == "typetest" && e.Args[0] == "e") {
+			if e.Op == "flagtest" || e.Op == "index" || (e.Op == "typetest" && e.Args[0] == "e") {
 				continue
 			}
 			parts = append(parts, e.String())
